@@ -1,5 +1,481 @@
-//! C17 — stub (being built).
+//! C17 — exported SDL is valid and describes exactly the schema.
+//!
+//! Monitor: every `Schema::sdl_with_options` result is parsed back by R2 (the
+//! independent parser) and by the crate's own `parse_schema`; both trees are
+//! normalised (`nm.rs`) and compared structurally (`diff.rs`) with the SOURCE
+//! description the schema was built from (`src.rs` for generated dynamic
+//! schemas, the hand models in `stat.rs` for the derive-built family).
+
+use std::collections::{BTreeMap, BTreeSet};
+use std::sync::atomic::{AtomicU64, Ordering};
+
+use vh_core::serde_json::{self, Value as J, json};
+use vh_core::{Rng, Run, catch, rng};
+
+use crate::diff::{Diff, Stats, compare};
+use crate::nm;
+use crate::src::*;
+use crate::stat;
+use crate::witness;
+
+/// Cases judged so far / cases judged when the first violation was reported
+/// (reported in the evidence so that "detected after how many cases" is measured).
+static CASES: AtomicU64 = AtomicU64::new(0);
+static FIRST_VIOLATION_AT: AtomicU64 = AtomicU64::new(0);
+
+/// Outcome of one (schema, options) case.
+pub struct CaseResult {
+    pub sdl: String,
+    /// R2 syntax error (the SDL is not a type-system document)
+    pub r2_error: Option<String>,
+    /// the crate's own parser rejects the SDL
+    pub crate_error: Option<String>,
+    pub r2_diffs: Vec<Diff>,
+    pub crate_diffs: Vec<Diff>,
+    /// R2 under the October-2021 SourceCharacter rule
+    pub strict_2021_ok: bool,
+}
+
+impl CaseResult {
+    pub fn clean(&self) -> bool {
+        self.r2_error.is_none() && self.crate_error.is_none() && self.r2_diffs.is_empty() && self.crate_diffs.is_empty()
+    }
+    /// distinct findings of this case: (tag, human text)
+    pub fn findings(&self) -> Vec<(String, String)> {
+        let mut out = vec![];
+        if let Some(e) = &self.r2_error {
+            out.push(("syntax".to_string(), format!("the SDL is not a valid type-system document (R2: {e})")));
+        }
+        if let Some(e) = &self.crate_error {
+            let extra = if self.r2_error.is_some() { "" } else { " although R2 accepts it" };
+            out.push(("syntax-crate".to_string(), format!("the crate's own parse_schema rejects the SDL{extra}: {e}")));
+        }
+        for d in &self.r2_diffs {
+            out.push((format!("{}@{}", d.aspect, d.path), format!("read back by R2: {}", d.line())));
+        }
+        for d in &self.crate_diffs {
+            // the same difference seen through both parsers is one finding
+            if self.r2_diffs.iter().any(|x| x.aspect == d.aspect && x.path == d.path && x.got == d.got) {
+                continue;
+            }
+            out.push((
+                format!("crate-parser:{}@{}", d.aspect, d.path),
+                format!("read back by the crate's own parser (R2 reads it differently): {}", d.line()),
+            ));
+        }
+        out
+    }
+}
+
+/// Parse an exported SDL with both parsers and compare with the source.
+pub fn check_sdl(model: &SModel, o: &Opts, sdl: String, st: &mut Stats) -> CaseResult {
+    let mut res = CaseResult {
+        sdl,
+        r2_error: None,
+        crate_error: None,
+        r2_diffs: vec![],
+        crate_diffs: vec![],
+        strict_2021_ok: true,
+    };
+    st.add("sdl_exported", 1);
+    CASES.fetch_add(1, Ordering::Relaxed);
+    // R2, later-edition SourceCharacter rule (any scalar value inside strings)
+    match vh_r2::parse_type_system(&res.sdl, &vh_r2::Options { allow_control_chars: true }) {
+        Err(e) => {
+            let line = res.sdl.split('\n').nth(e.pos.line.saturating_sub(1)).unwrap_or("");
+            res.r2_error = Some(format!("{e}; line {}: {}", e.pos.line, truncate(line, 160)));
+        }
+        Ok(p) => {
+            st.add("r2_parse_ok", 1);
+            if let Err(e) = vh_r2::validate_type_system(&p.doc) {
+                // only document-level rules the crate's parser also enforces; federation SDL has no `schema {}`
+                if !o.federation {
+                    res.r2_error = Some(format!("document rule: {e:?}"));
+                }
+            }
+            let n = nm::from_r2(&p.doc);
+            res.r2_diffs = compare(model, o, &n, st);
+            if vh_r2::parse_type_system(&res.sdl, &vh_r2::Options { allow_control_chars: false }).is_err() {
+                res.strict_2021_ok = false;
+                st.add("sdl_needs_post_2021_source_characters", 1);
+            }
+        }
+    }
+    let text = res.sdl.clone();
+    match catch(move || async_graphql_parser::parse_schema(&text)) {
+        Err(p) => res.crate_error = Some(format!("panic: {p}")),
+        Ok(Err(e)) => res.crate_error = Some(e.to_string()),
+        Ok(Ok(doc)) => {
+            st.add("crate_parse_ok", 1);
+            let n = nm::from_crate(&doc);
+            let mut scratch = Stats::default();
+            res.crate_diffs = compare(model, o, &n, &mut scratch);
+            st.add("crate_models_compared", 1);
+        }
+    }
+    res
+}
+
+fn export_dynamic(schema: &async_graphql::dynamic::Schema, o: &Opts) -> Result<String, String> {
+    let so = o.to_sdl();
+    catch(|| schema.sdl_with_options(so))
+}
+
+fn flush(run: &Run, st: &Stats) {
+    for (k, v) in &st.0 {
+        run.count(k, *v);
+    }
+}
+
+/// Which option sets a schema is exported under.
+fn option_indices(run: &Run, schema_index: u64, per_schema: usize) -> Vec<usize> {
+    if per_schema >= Opts::COUNT {
+        return (0..Opts::COUNT).collect();
+    }
+    // a fixed pseudo-random permutation of all option sets, walked in windows:
+    // every set is used once before any is used twice
+    let mut perm: Vec<usize> = (0..Opts::COUNT).collect();
+    Rng::new(rng::mix(&[run.seed, 17, 0xA11])).shuffle(&mut perm);
+    let start = (schema_index as usize * per_schema) % Opts::COUNT;
+    let mut v: Vec<usize> = (0..per_schema).map(|k| perm[(start + k) % Opts::COUNT]).collect();
+    // the default options are what `Schema::sdl()` uses: always included
+    v[0] = 0x100; // all booleans off, indent width 2
+    v
+}
+
+fn truncate(s: &str, n: usize) -> String {
+    vh_core::run::truncate(s, n)
+}
+
+fn report(run: &Run, origin: J, origin_tag: &str, o: &Opts, res: &CaseResult, seen: &mut BTreeSet<String>) {
+    for (tag, text) in res.findings() {
+        if !seen.insert(tag.clone()) {
+            continue; // already reported for this schema under another option set
+        }
+        let sig = format!("{origin_tag}:{:016x}", rng::hash_str(&tag));
+        let _ = FIRST_VIOLATION_AT.compare_exchange(0, CASES.load(Ordering::Relaxed), Ordering::Relaxed, Ordering::Relaxed);
+        run.violation(
+            &sig,
+            &format!("{text}\n  options: {o:?}\n  SDL:\n{}", truncate(&res.sdl, 1500)),
+            json!({"origin": origin, "options": o, "finding": text, "sdl": res.sdl}),
+        );
+    }
+}
+
+fn generated(run: &Run, feat: &Feat) {
+    let n_schemas = run.scale(800, 1500);
+    let per_schema = run.scale(16, Opts::COUNT as u64) as usize;
+    let shards = 16u64;
+    std::thread::scope(|sc| {
+        for shard in 0..shards {
+            let feat = feat.clone();
+            sc.spawn(move || {
+                let mut st = Stats::default();
+                let mut i = shard;
+                while i < n_schemas {
+                    let mut r = Rng::new(rng::mix(&[run.seed, 17, i]));
+                    let (model, info) = gen_model(&mut r, &feat);
+                    let model_json = serde_json::to_value(&model).unwrap();
+                    let mh = rng::hash_str(&model_json.to_string());
+                    let schema = match catch(|| build_dynamic(&model)) {
+                        Ok(Ok(s)) => s,
+                        Ok(Err(e)) => {
+                            run.inconclusive(&format!("harness: generated description does not build: {e}"));
+                            i += shards;
+                            continue;
+                        }
+                        Err(p) => {
+                            run.violation(
+                                &format!("gen-build-panic:{mh:016x}"),
+                                &format!("building the dynamic schema panicked: {p}"),
+                                json!({"origin": {"kind": "dynamic", "model": model_json}}),
+                            );
+                            i += shards;
+                            continue;
+                        }
+                    };
+                    st.add("schemas_built_dynamic", 1);
+                    for c in &info.text_classes {
+                        run.seen("text_classes_generated", c);
+                    }
+                    let (de, dp, df, di) = model.decorations();
+                    let nontrivial = de + dp + df + di >= 3;
+                    let mut seen = BTreeSet::new();
+                    for (k, oi) in option_indices(run, i, per_schema).into_iter().enumerate() {
+                        let o = Opts::from_index(oi);
+                        run.eval();
+                        let sdl = match export_dynamic(&schema, &o) {
+                            Ok(s) => s,
+                            Err(p) => {
+                                run.violation(
+                                    &format!("gen-export-panic:{mh:016x}"),
+                                    &format!("sdl_with_options panicked: {p}"),
+                                    json!({"origin": {"kind": "dynamic", "model": model_json}, "options": o}),
+                                );
+                                continue;
+                            }
+                        };
+                        if k == 0 && o == Opts::default_options() {
+                            // `sdl()` is the same export as the default options
+                            st.add("plain_sdl_calls", 1);
+                            let plain = schema.sdl();
+                            if plain != sdl {
+                                run.violation(
+                                    &format!("gen-sdl-vs-default:{mh:016x}"),
+                                    "Schema::sdl() differs from sdl_with_options(SDLExportOptions::new())",
+                                    json!({"origin": {"kind": "dynamic", "model": model_json}}),
+                                );
+                            }
+                        }
+                        if nontrivial {
+                            run.nontrivial(rng::hash_str(&sdl));
+                        }
+                        run.seen("option_sets", &o.tag());
+                        let res = check_sdl(&model, &o, sdl, &mut st);
+                        if res.clean() {
+                            st.add("cases_clean", 1);
+                        }
+                        if i < 3 && k == 1 {
+                            run.sample(json!({
+                                "origin": "generated dynamic schema",
+                                "schema_index": i,
+                                "options": o.tag(),
+                                "descriptions": de, "deprecations": dp, "defaults": df, "applied_directives": di,
+                                "sdl_head": truncate(&res.sdl, 900),
+                                "verdict": if res.clean() { "both parsers read back exactly the source description" } else { "differs" },
+                            }));
+                        }
+                        report(
+                            run,
+                            json!({"kind": "dynamic", "model": model_json}),
+                            &format!("gen:{mh:016x}"),
+                            &o,
+                            &res,
+                            &mut seen,
+                        );
+                    }
+                    i += shards;
+                }
+                flush(run, &st);
+            });
+        }
+    });
+}
+
+/// A generator feature is on unless a known finding excludes it. Development
+/// aid: `C17_ONLY_FEATURES=a,b` additionally switches every feature not listed
+/// off (used to look at one defect class at a time; never set by `./check`).
+pub fn feature_on(run: &Run, name: &str) -> bool {
+    if let Ok(only) = std::env::var("C17_ONLY_FEATURES") {
+        if !only.split(',').any(|x| x.trim() == name) {
+            return false;
+        }
+    }
+    run.feature(name)
+}
+
+fn static_family(run: &Run) {
+    let fam = stat::family();
+    for s in &fam {
+        let missing: Vec<&&str> = s.requires.iter().filter(|f| !feature_on(run, f)).collect();
+        if !missing.is_empty() {
+            run.seen("static_schemas_skipped_for_known_findings", s.name);
+            continue;
+        }
+        run.seen("static_schemas_checked", s.name);
+        // the small family is always exported under every option set
+        let shards = 16usize;
+        std::thread::scope(|sc| {
+            for shard in 0..shards {
+                sc.spawn(move || {
+                    let mut st = Stats::default();
+                    let mut seen = BTreeSet::new();
+                    for oi in (shard..Opts::COUNT).step_by(shards) {
+                        let o = Opts::from_index(oi);
+                        run.eval();
+                        let sdl = match catch(|| (s.export)(&o)) {
+                            Ok(x) => x,
+                            Err(p) => {
+                                run.violation(
+                                    &format!("static-export-panic:{}", s.name),
+                                    &format!("sdl_with_options panicked: {p}"),
+                                    json!({"origin": {"kind": "static", "name": s.name}, "options": o}),
+                                );
+                                continue;
+                            }
+                        };
+                        if o == Opts::default_options() {
+                            st.add("plain_sdl_calls", 1);
+                            if catch(|| (s.plain)()).ok().as_deref() != Some(sdl.as_str()) {
+                                run.violation(
+                                    &format!("static-sdl-vs-default:{}", s.name),
+                                    "Schema::sdl() differs from sdl_with_options(SDLExportOptions::new())",
+                                    json!({"origin": {"kind": "static", "name": s.name}}),
+                                );
+                            }
+                        }
+                        run.nontrivial(rng::hash_str(&sdl));
+                        run.seen("option_sets", &o.tag());
+                        st.add("static_cases", 1);
+                        let res = check_sdl(&s.model, &o, sdl, &mut st);
+                        if res.clean() {
+                            st.add("cases_clean", 1);
+                        }
+                        if s.name == "clean" && oi == 0x100 {
+                            run.sample(json!({
+                                "origin": "derive-built schema 'clean'",
+                                "options": o.tag(),
+                                "sdl_head": truncate(&res.sdl, 900),
+                                "verdict": if res.clean() { "both parsers read back exactly the hand model" } else { "differs" },
+                            }));
+                        }
+                        report(
+                            run,
+                            json!({"kind": "static", "name": s.name}),
+                            &format!("static:{}", s.name),
+                            &o,
+                            &res,
+                            &mut seen,
+                        );
+                    }
+                    flush(run, &st);
+                });
+            }
+        });
+    }
+}
+
+fn replay(run: &Run, path: &std::path::Path) {
+    let text = match std::fs::read_to_string(path) {
+        Ok(t) => t,
+        Err(e) => {
+            run.inconclusive(&format!("cannot read replay file: {e}"));
+            return;
+        }
+    };
+    let v: J = match serde_json::from_str(&text) {
+        Ok(v) => v,
+        Err(e) => {
+            run.inconclusive(&format!("replay file is not JSON: {e}"));
+            return;
+        }
+    };
+    let case = if v.get("case").is_some() { v["case"].clone() } else { v.clone() };
+    let o: Opts = match serde_json::from_value(case["options"].clone()) {
+        Ok(o) => o,
+        Err(_) => Opts::default_options(),
+    };
+    let mut st = Stats::default();
+    let (model, sdl): (SModel, String) = match case["origin"]["kind"].as_str() {
+        Some("dynamic") => {
+            let model: SModel = match serde_json::from_value(case["origin"]["model"].clone()) {
+                Ok(m) => m,
+                Err(e) => {
+                    run.inconclusive(&format!("replay: model does not deserialize: {e}"));
+                    return;
+                }
+            };
+            let schema = match build_dynamic(&model) {
+                Ok(s) => s,
+                Err(e) => {
+                    run.inconclusive(&format!("replay: schema does not build: {e}"));
+                    return;
+                }
+            };
+            let sdl = schema.sdl_with_options(o.to_sdl());
+            (model, sdl)
+        }
+        Some("static") => {
+            let name = case["origin"]["name"].as_str().unwrap_or("");
+            let Some(s) = stat::family().into_iter().find(|s| s.name == name) else {
+                run.inconclusive(&format!("replay: no static schema named {name:?}"));
+                return;
+            };
+            let sdl = (s.export)(&o);
+            (s.model, sdl)
+        }
+        _ => {
+            run.inconclusive("replay: case has no origin.kind");
+            return;
+        }
+    };
+    run.eval();
+    let res = check_sdl(&model, &o, sdl, &mut st);
+    println!("REPLAY options: {o:?}");
+    println!("REPLAY SDL:\n{}", res.sdl);
+    if res.clean() {
+        println!("REPLAY verdict: both parsers read back exactly the source description");
+    }
+    let mut seen = BTreeSet::new();
+    report(run, case["origin"].clone(), "replay", &o, &res, &mut seen);
+}
+
 pub fn main() {
-    println!("INCONCLUSIVE property=C17 reason=check not built yet");
-    std::process::exit(2);
+    let mut run = Run::from_args(
+        "exploration",
+        "generated dynamic schemas (G1 type-system skeleton: objects, interfaces incl. interface inheritance, unions, enums, \
+         custom scalars, input objects, oneOf, arguments with defaults) decorated with descriptions, deprecation reasons, \
+         string defaults and directive-argument strings drawn from hostile text classes (quotes, triple quotes, backslashes, \
+         control characters, CR, blank edge lines, indentation, non-ASCII), applied directives on every definition kind, \
+         federation attributes; plus a hand-written derive-built family with hand models; every schema exported under \
+         option sets from the full 2^8 x {0,2,8} space, re-parsed by R2 and by parse_schema and compared structurally \
+         with the source description. A case = (schema, option set); non-trivial when the schema carries >= 3 decorations; \
+         distinct by hash of the exported text",
+    );
+    run.assume("R2 (harness/r2) parses type-system documents per the specification; its string decoding is the reference for what an SDL text says");
+    run.assume("R2 reads the SDL under the later-edition SourceCharacter rule (any scalar value inside strings); texts that need it are counted, not rejected");
+    run.assume("order of fields / arguments / enum values is asserted only under the sorted_* option that documents it; type order is never asserted");
+    run.assume("federation mode: federation directives, `extend schema @link`, a missing `schema {}` block and a missing subscription root are admitted and not compared (the option's documented effect is only 'Federation SDL'); everything else is compared as without it");
+    run.assume("built-in directive definitions may be omitted from SDL (spec 3.13); when printed they are compared with the registry's definitions");
+    run.assume("the crate parser's `is_repeatable` is not read (C13-directive-not-repeatable); repeatable is judged through R2 only");
+    run.assume("enum literals that start with true/false/null are not generated (C13 enum-keyword-prefix findings concern the crate's parser, not the exporter)");
+    run.assume("custom directive *definitions* cannot be registered through the dynamic API; they are covered by the derive-built family (#[TypeDirective])");
+
+    let feat = Feat::from(|n| feature_on(&run, n));
+    if let Some(p) = run.replay.clone() {
+        replay(&run, &p);
+        run.finish();
+    }
+    run.set_floors(run.scale(2_000, 200_000), run.scale(1_000, 50_000));
+    for c in [
+        "sdl_exported",
+        "r2_parse_ok",
+        "crate_parse_ok",
+        "types_compared",
+        "fields_compared",
+        "input_values_compared",
+        "defaults_compared",
+        "string_defaults_compared",
+        "descriptions_present_compared",
+        "deprecations_present_compared",
+        "enum_values_compared",
+        "union_members_compared",
+        "implements_nonempty_compared",
+        "applied_directives_compared",
+        "custom_directive_definitions_compared",
+        "builtin_directive_definitions_compared",
+        "sorted_sequences_checked",
+        "specified_by_compared",
+        "oneof_compared",
+        "schema_definitions_compared",
+        "static_cases",
+    ] {
+        run.require_counter(c);
+    }
+    run.set_max_samples(5);
+
+    witness::run_all(&run);
+    static_family(&run);
+    generated(&run, &feat);
+
+    let first = FIRST_VIOLATION_AT.load(Ordering::Relaxed);
+    if first > 0 && run.violations() > 0 {
+        println!("NOTE: first difference reported after {first} judged cases");
+        run.extra("first_difference_after_cases", json!(first));
+    }
+    let excluded = run.excluded_features();
+    let on: BTreeMap<&str, bool> = FEATURE_NAMES.iter().map(|n| (*n, !excluded.iter().any(|e| e == n))).collect();
+    run.extra("generator_features", json!(on));
+    run.extra("option_space", json!({"boolean_options": 8, "indent_widths": INDENT_WIDTHS, "combinations": Opts::COUNT}));
+    run.finish();
 }
